@@ -579,11 +579,13 @@ func (dsc *dataStoreCommand) bitfieldWrite(keyName string, ops []*bitfieldOp) (o
 			output.data = wrongTypeError
 			return
 		}
-		if len(strBytes) < length {
-			expanded := make([]byte, length)
-			copy(expanded, strBytes)
-			strBytes = expanded
+		// always work on a copy: readers hold on to the stored bytes without the lock
+		if len(strBytes) > length {
+			length = len(strBytes)
 		}
+		expanded := make([]byte, length)
+		copy(expanded, strBytes)
+		strBytes = expanded
 		expiration = sk.expiresAt
 	} else {
 		// make a brand new byte array
